@@ -80,3 +80,7 @@ q, t = rapid_jobs(qshards=4, tshards=16, tscale=8)
 add("C03", "c03", q, t)
 q, t = rapid_jobs(qshards=4, tshards=16, tscale=10)
 add("C16", "c16", q, t)
+
+# ---- C04 heaps -------------------------------------------------------------------
+q, t = rapid_jobs(qshards=4, tshards=16, tscale=10)
+add("C04", "c04", q, t)
